@@ -40,4 +40,13 @@ MUTANTS = [
  ('c14-rw-size', 'C14', 'pymodbus/register_read_message.py', "        return 1 + 1 + 2 * self.read_count", "        return 1 + 1 + 2 * self.write_count"),
  ('c14-rtu-minsize', 'C14', 'pymodbus/transaction.py', "            elif isinstance(self.client.framer, ModbusRtuFramer):\n                min_size = 2", "            elif isinstance(self.client.framer, ModbusRtuFramer):\n                min_size = 3"),
  ('c14-ascii-doubling', 'C14', 'pymodbus/transaction.py', "response_pdu_size = response_pdu_size * 2", "response_pdu_size = response_pdu_size * 2 - (response_pdu_size > 200)"),
+ # ---- C03
+ ('c03-crc-byteorder', 'C03', 'pymodbus/framer/rtu_framer.py', '        packet += struct.pack(">H", computeCRC(packet))\n        message.transaction_id', '        packet += struct.pack("<H", computeCRC(packet))\n        message.transaction_id'),
+ ('c03-ascii-lower', 'C03', 'pymodbus/framer/ascii_framer.py', "return bytes(packet).upper()", "return bytes(packet)"),
+ ('c03-mbap-len', 'C03', 'pymodbus/framer/socket_framer.py', "                             len(data) + 2,", "                             len(data) + 1,"),
+ ('c03-lrc-pdu-only', 'C03', 'pymodbus/framer/ascii_framer.py', "checksum = computeLRC(encoded + buffer)", "checksum = computeLRC(encoded + buffer[1:])"),
+ ('c03-rtu-bytecount-pos', 'C03', 'pymodbus/other_message.py', "    function_code = 0x0c\n    _rtu_byte_count_pos = 2", "    function_code = 0x0c\n    _rtu_byte_count_pos = 3"),
+ ('c03-crc-table', 'C03', 'pymodbus/utilities.py', "        result.append(crc)\n    return result", "        result.append(crc)\n    result[0xA7] ^= 0x0100\n    return result"),
+ ('c03-tcp-uid-lost', 'C03', 'pymodbus/framer/socket_framer.py', "        result.unit_id = self._header['uid']", "        result.unit_id = self._header['uid'] & 0x7f"),
+ ('c03-binary-crc-over-raw', 'C03', 'pymodbus/framer/binary_framer.py', "        if end != -1:\n            self._header['len'] = end\n            self._header['uid'] = struct.unpack('>B', self._buffer[1:2])[0]", "        if end != -1:\n            self._header['len'] = end\n            self._header['uid'] = struct.unpack('>B', self._buffer[2:3])[0]"),
 ]
